@@ -9,10 +9,10 @@ M9's format table.  The model's rendering is compared byte for byte with what th
 Proved: `line` (the stored value is one newline-terminated line: no raw newline can come out of the
 escaper, whatever bytes — valid UTF-8 or not — the strings contain), `unencodable` (an unsupported
 value anywhere ⇒ error, nothing stored, nothing forwarded), `predicate` (forwarding decisions).
-Not proved in Lean (checked on the implementation by the harness with `encoding/json` as the
-reader): that the line decodes back to the creation time, the type and the payload's JSON image
-— labelled partial; the formatters only read the payload (the model is a pure function of it, and the
-harness compares the payload before and after).
+That the line decodes back to the creation time, the type and the payload's JSON image is proved in
+`C14Read.lean` (strings) and `C14Parse.lean` (the whole line, with the model's own strict parser,
+itself compared with `encoding/json` by the harness); the formatters only read the payload (the model
+is a pure function of it, and the harness compares the payload before and after).
 -/
 namespace Evl.C14
 open Evl.Json
